@@ -435,7 +435,10 @@ def plans(prop, tier):
                ("v7-fill", B(V7=True, Sizes={692, 693}, MaxVital=2, MaxNV=0, MaxFaults=0, MaxClock=1))]
         # the 10-bit sequence number wraps (1022 -> 1023 -> 0): headers must stay encodable
         ex += [("v6tok-wrap", B(InitOnline=True, SeqStart=1022, MaxVital=2, MaxFaults=0, MaxClock=1)),
-               ("v7-wrap", B(V7=True, InitOnline=True, SeqStart=1022, MaxVital=2, MaxFaults=0, MaxClock=1))]
+               ("v7-wrap", B(V7=True, InitOnline=True, SeqStart=1022, MaxVital=2, MaxFaults=0, MaxClock=1)),
+               # every flag combination on compressible payloads: a side with a resend request pending sends data
+               ("v7-rr-compress", B(V7=True, Senders={"c", "s"}, Sizes={40}, MaxVital=2, MaxVitalS=1, MaxNV=0, MaxFaults=1, MaxClock=0)),
+               ("v6tok-rr-compress", B(Senders={"c", "s"}, Sizes={40}, MaxVital=2, MaxVitalS=1, MaxNV=0, MaxFaults=1, MaxClock=0))]
         dr = [(m, sc, 1, 0) for m in ("v6tok", "v7") for sc in ("smallchunks", "bigchunks", "fill")]
         if not q:
             ex += [("v6tok-limits-faults", B(Sizes={0, 1023}, MaxVital=2, MaxNV=1, MaxFaults=1, MaxClock=1)),
